@@ -100,10 +100,11 @@ Theorem C19_edn_kw_dot_refuted :
                         /\ read_string pf Lisp (write (EKw None nm)) = ROk (EKw None nm).
 Proof. exact edn_kw_dot_refuted. Qed.
 
-(** F-19c: through the Lisp reader the same float text becomes the integer 10^23 *)
-Theorem C19_edn_via_lisp_float_exp_refuted :
-  exists tok, forall pf, read_string pf Lisp (write (EFloat tok)) = ROk (EInt (10 ^ 23)).
-Proof. exact lisp_float_exp_refuted. Qed.
+(** F-19c (repaired): through the Lisp reader the float text 1e+23 used to become the integer
+    10^23; the reader now hands every exponent literal to float() *)
+Theorem C19_edn_via_lisp_float_exp :
+  exists tok, forall pf, pf tok = Some tok -> read_string pf Lisp (write (EFloat tok)) = ROk (EFloat tok).
+Proof. exact lisp_float_exp_roundtrip. Qed.
 
 (** ** JSON: with Python's json.dumps/json.loads inverse on trees with distinct object keys,
     read-str (write-str v) is the documented coercion of v *)
@@ -135,6 +136,6 @@ Print Assumptions C19_edn_via_lisp_reader_partial.
 Print Assumptions C19_edn_guard_nonvacuous.
 Print Assumptions C19_edn_float_exp_refuted.
 Print Assumptions C19_edn_kw_dot_refuted.
-Print Assumptions C19_edn_via_lisp_float_exp_refuted.
+Print Assumptions C19_edn_via_lisp_float_exp.
 Print Assumptions C19_json_coercion.
 Print Assumptions C19_json_nonvacuous.
